@@ -1,7 +1,8 @@
-(* Lemmas about Model/OwnArea.v (C15). *)
-From Coq Require Import List Bool ZArith QArith Lia.
+(* Lemmas about Model/OwnArea.v (C15): laws of the exact grid specification [own_share_grid]. *)
+From Coq Require Import List Bool ZArith QArith Lia Permutation.
 From Similari Require Import Base.Num Model.Geom Model.OwnArea.
 Import ListNotations.
+Open Scope Z_scope.
 
 Lemma own_shares_grid_length : forall bs, length (own_shares_grid bs) = length bs.
 Proof.
@@ -9,3 +10,395 @@ Proof.
   induction bs as [|b tl IH]; intros pre; cbn [own_shares_grid_from length]; [reflexivity|].
   now rewrite IH.
 Qed.
+
+(* ------------------------------------------------------------------------------------------ *)
+(* compressed coordinates: strictly increasing, same elements *)
+
+Fixpoint ssorted (l : list Z) : Prop :=
+  match l with
+  | [] => True
+  | a :: tl => (forall x, In x tl -> a < x) /\ ssorted tl
+  end.
+
+Lemma sinsert_in x l y : In y (sinsert x l) <-> y = x \/ In y l.
+Proof.
+  induction l as [|a tl IH]; cbn [sinsert In].
+  - intuition.
+  - destruct (x <? a) eqn:A; [cbn [In]; intuition|].
+    destruct (x =? a) eqn:B.
+    + apply Z.eqb_eq in B. subst. cbn [In]. intuition.
+    + cbn [In]. rewrite IH. intuition.
+Qed.
+
+Lemma sinsert_sorted x l : ssorted l -> ssorted (sinsert x l).
+Proof.
+  induction l as [|a tl IH]; cbn [sinsert ssorted]; intros H.
+  - split; [intros y []|exact I].
+  - destruct H as [H1 H2]. destruct (x <? a) eqn:A.
+    + apply Z.ltb_lt in A. cbn [ssorted]. split; [|split; assumption].
+      intros y [<-|Hy]; [assumption|]. specialize (H1 y Hy). lia.
+    + destruct (x =? a) eqn:B; [cbn [ssorted]; split; assumption|].
+      apply Z.ltb_ge in A. apply Z.eqb_neq in B. cbn [ssorted]. split; [|now apply IH].
+      intros y Hy. apply sinsert_in in Hy. destruct Hy as [->|Hy]; [lia | now apply H1].
+Qed.
+
+Lemma sset_in l y : In y (sset l) <-> In y l.
+Proof.
+  induction l as [|a tl IH]; cbn [sset fold_right In]; [reflexivity|].
+  change (fold_right sinsert [] tl) with (sset tl). rewrite sinsert_in, IH. intuition.
+Qed.
+
+Lemma sset_sorted l : ssorted (sset l).
+Proof.
+  induction l as [|a tl IH]; cbn [sset fold_right]; [exact I|]. now apply sinsert_sorted.
+Qed.
+
+Lemma ssorted_unique l l' : ssorted l -> ssorted l' -> (forall x, In x l <-> In x l') -> l = l'.
+Proof.
+  revert l'. induction l as [|a tl IH]; intros l' S S' E.
+  - destruct l' as [|b tl']; [reflexivity|]. exfalso. apply (E b). now left.
+  - destruct l' as [|b tl']; [exfalso; apply (E a); now left|].
+    destruct S as [S1 S2], S' as [S1' S2'].
+    assert (a = b).
+    { assert (Ha : In a (b :: tl')) by (apply E; now left).
+      assert (Hb : In b (a :: tl)) by (apply E; now left).
+      destruct Ha as [->|Ha]; [reflexivity|]. destruct Hb as [->|Hb]; [reflexivity|].
+      specialize (S1 b Hb). specialize (S1' a Ha). lia. }
+    subst b. f_equal. apply IH; try assumption.
+    intros x. split; intros Hx.
+    + assert (In x (a :: tl')) as [->|?] by (apply E; now right); [|assumption].
+      specialize (S1 x Hx). lia.
+    + assert (In x (a :: tl)) as [->|?] by (apply E; now right); [|assumption].
+      specialize (S1' x Hx). lia.
+Qed.
+
+Lemma sset_perm l l' : (forall x, In x l <-> In x l') -> sset l = sset l'.
+Proof.
+  intros E. apply ssorted_unique; try apply sset_sorted. intros x. rewrite !sset_in. apply E.
+Qed.
+
+(* elementary intervals of a sorted list *)
+Lemma adj_cons a b tl : adj (a :: b :: tl) = (a, b) :: adj (b :: tl).
+Proof. reflexivity. Qed.
+
+Lemma adj_facts l : ssorted l -> forall c, In c (adj l) ->
+  fst c < snd c /\ In (fst c) l /\ In (snd c) l /\ (forall x, In x l -> x <= fst c \/ snd c <= x).
+Proof.
+  induction l as [|a tl IH]; intros S c Hc; [contradiction|].
+  destruct tl as [|b tl]; [contradiction|].
+  rewrite adj_cons in Hc. destruct S as [S1 S2]. destruct Hc as [<-|Hc]; cbn [fst snd].
+  - split; [apply S1; now left|]. split; [now left|]. split; [right; now left|].
+    intros x [<-|[<-|Hx]]; [lia | lia |]. right. destruct S2 as [S2 _]. specialize (S2 x Hx). lia.
+  - destruct (IH S2 c Hc) as (F1 & F2 & F3 & F4). split; [assumption|].
+    split; [now right|]. split; [now right|].
+    intros x [<-|Hx]; [|now apply F4]. left. specialize (S1 _ F2). lia.
+Qed.
+
+(* ------------------------------------------------------------------------------------------ *)
+(* one-dimensional measure of [lo,hi] on the compressed axis *)
+
+Definition in1 (lo hi : Z) (c : Z * Z) : bool := (lo <=? fst c) && (snd c <=? hi).
+Definition len1 (s : list Z) (lo hi : Z) : Z :=
+  zsum (map (fun c => if in1 lo hi c then snd c - fst c else 0) (adj s)).
+
+Lemma len1_above s : forall lo hi, ssorted s -> (forall x, In x s -> hi < x) -> len1 s lo hi = 0.
+Proof.
+  unfold len1. induction s as [|a tl IH]; intros lo hi S H; [reflexivity|].
+  destruct tl as [|b tl]; [reflexivity|]. rewrite adj_cons. cbn [map zsum fold_right].
+  change (fold_right Z.add 0 ?l) with (zsum l).
+  destruct S as [S1 S2]. rewrite (IH lo hi S2) by (intros x Hx; apply H; now right).
+  unfold in1. cbn [fst snd]. assert (hi < b) by (apply H; right; now left).
+  destruct (b <=? hi) eqn:E; [apply Z.leb_le in E; lia|]. rewrite andb_false_r. reflexivity.
+Qed.
+
+Lemma len1_from_head : forall tl h lo hi, ssorted (h :: tl) -> lo <= h -> In hi (h :: tl) ->
+  len1 (h :: tl) lo hi = hi - h.
+Proof.
+  induction tl as [|b tl IH]; intros h lo hi S L Hhi.
+  - destruct Hhi as [<-|[]]. unfold len1. cbn. lia.
+  - unfold len1. rewrite adj_cons. cbn [map zsum fold_right].
+    change (fold_right Z.add 0 ?l) with (zsum l).
+    change (zsum (map (fun c => if in1 lo hi c then snd c - fst c else 0) (adj (b :: tl)))) with (len1 (b :: tl) lo hi).
+    destruct S as [S1 S2]. assert (HB : h < b) by (apply S1; now left).
+    unfold in1 at 1. cbn [fst snd]. assert (E1 : (lo <=? h) = true) by (apply Z.leb_le; lia). rewrite E1. cbn [andb].
+    destruct Hhi as [<-|Hhi].
+    + assert (E2 : (b <=? h) = false) by (apply Z.leb_gt; lia). rewrite E2.
+      rewrite len1_above; [lia | assumption |].
+      intros x [<-|Hx]; [lia|]. destruct S2 as [S2 _]. specialize (S2 x Hx). lia.
+    + assert (b <= hi). { destruct Hhi as [<-|Hx]; [lia|]. destruct S2 as [S2 _]. specialize (S2 hi Hx). lia. }
+      assert (E2 : (b <=? hi) = true) by (apply Z.leb_le; lia). rewrite E2.
+      rewrite (IH b lo hi S2) by (try lia; assumption). lia.
+Qed.
+
+Lemma len1_exact : forall s lo hi, ssorted s -> In lo s -> In hi s -> lo <= hi -> len1 s lo hi = hi - lo.
+Proof.
+  induction s as [|a tl IH]; intros lo hi S Hlo Hhi L; [contradiction|].
+  destruct Hlo as [<-|Hlo].
+  - apply len1_from_head; [assumption | lia | assumption].
+  - destruct S as [S1 S2]. assert (a < lo) by (now apply S1).
+    destruct tl as [|b tl]; [contradiction|].
+    assert (Hhi' : In hi (b :: tl)) by (destruct Hhi as [<-|?]; [lia | assumption]).
+    unfold len1. rewrite adj_cons. cbn [map zsum fold_right].
+    change (fold_right Z.add 0 ?l) with (zsum l).
+    change (zsum (map (fun c => if in1 lo hi c then snd c - fst c else 0) (adj (b :: tl)))) with (len1 (b :: tl) lo hi).
+    unfold in1 at 1. cbn [fst snd]. assert (E : (lo <=? a) = false) by (apply Z.leb_gt; lia). rewrite E. cbn [andb].
+    rewrite (IH lo hi S2 Hlo Hhi' L). lia.
+Qed.
+
+Lemma zsum_nonneg l : (forall x, In x l -> 0 <= x) -> 0 <= zsum l.
+Proof.
+  induction l as [|a tl IH]; intros H; cbn [zsum fold_right]; [lia|].
+  change (fold_right Z.add 0 tl) with (zsum tl).
+  assert (0 <= a) by (apply H; now left). assert (0 <= zsum tl) by (apply IH; intros; apply H; now right). lia.
+Qed.
+
+(* ------------------------------------------------------------------------------------------ *)
+(* two-dimensional sums over the grid *)
+
+Lemma zsum_map_ext {A} (f g : A -> Z) l : (forall x, In x l -> f x = g x) -> zsum (map f l) = zsum (map g l).
+Proof.
+  induction l as [|a tl IH]; intros H; cbn [map zsum fold_right]; [reflexivity|].
+  change (fold_right Z.add 0 ?l) with (zsum l). rewrite (H a) by now left. rewrite IH; [reflexivity|].
+  intros; apply H; now right.
+Qed.
+
+Lemma zsum_map_add {A} (f g : A -> Z) l : zsum (map (fun x => f x + g x) l) = zsum (map f l) + zsum (map g l).
+Proof.
+  induction l as [|a tl IH]; cbn [map zsum fold_right]; [reflexivity|].
+  change (fold_right Z.add 0 ?l) with (zsum l). rewrite IH. lia.
+Qed.
+
+Lemma zsum_map_mul_l {A} (k : Z) (f : A -> Z) l : zsum (map (fun x => k * f x) l) = k * zsum (map f l).
+Proof.
+  induction l as [|a tl IH]; cbn [map zsum fold_right]; [lia|].
+  change (fold_right Z.add 0 ?l) with (zsum l). rewrite IH. lia.
+Qed.
+
+Lemma zsum_map_zero {A} (f : A -> Z) l : (forall x, In x l -> f x = 0) -> zsum (map f l) = 0.
+Proof.
+  induction l as [|a tl IH]; intros H; cbn [map zsum fold_right]; [reflexivity|].
+  change (fold_right Z.add 0 ?l) with (zsum l). rewrite (H a) by now left. rewrite IH; [reflexivity|].
+  intros; apply H; now right.
+Qed.
+
+Lemma cells_sum_ext xs ys p q :
+  (forall cx cy, In cx (adj xs) -> In cy (adj ys) -> p cx cy = q cx cy) -> cells_sum xs ys p = cells_sum xs ys q.
+Proof.
+  intros H. unfold cells_sum. apply zsum_map_ext. intros cx Hx. apply zsum_map_ext. intros cy Hy.
+  now rewrite H.
+Qed.
+
+Lemma cells_sum_split xs ys p q :
+  cells_sum xs ys p = cells_sum xs ys (fun cx cy => p cx cy && q cx cy) + cells_sum xs ys (fun cx cy => p cx cy && negb (q cx cy)).
+Proof.
+  unfold cells_sum. rewrite <- zsum_map_add. apply zsum_map_ext. intros cx _.
+  rewrite <- zsum_map_add. apply zsum_map_ext. intros cy _.
+  destruct (p cx cy), (q cx cy); cbn [andb negb]; lia.
+Qed.
+
+Lemma cells_sum_zero xs ys p :
+  (forall cx cy, In cx (adj xs) -> In cy (adj ys) -> p cx cy = false) -> cells_sum xs ys p = 0.
+Proof.
+  intros H. unfold cells_sum. apply zsum_map_zero. intros cx Hx. apply zsum_map_zero. intros cy Hy.
+  now rewrite H.
+Qed.
+
+Lemma cells_sum_nonneg xs ys p : ssorted xs -> ssorted ys -> 0 <= cells_sum xs ys p.
+Proof.
+  intros Sx Sy. unfold cells_sum. apply zsum_nonneg. intros v Hv. apply in_map_iff in Hv.
+  destruct Hv as [cx [<- Hx]]. apply zsum_nonneg. intros w Hw. apply in_map_iff in Hw.
+  destruct Hw as [cy [<- Hy]]. destruct (p cx cy); [|lia]. unfold cell_area.
+  destruct (adj_facts xs Sx cx Hx) as [? _]. destruct (adj_facts ys Sy cy Hy) as [? _]. nia.
+Qed.
+
+(* the cells inside a box add up to its area *)
+Lemma cells_sum_box xs ys b :
+  cells_sum xs ys (cell_in b) = len1 xs (ix0 b) (ix1 b) * len1 ys (iy0 b) (iy1 b).
+Proof.
+  unfold cells_sum, len1.
+  rewrite Z.mul_comm, <- zsum_map_mul_l. apply zsum_map_ext. intros cx _.
+  rewrite Z.mul_comm, <- zsum_map_mul_l. apply zsum_map_ext. intros cy _.
+  unfold cell_in, in1, cell_area.
+  destruct (ix0 b <=? fst cx), (snd cx <=? ix1 b), (iy0 b <=? fst cy), (snd cy <=? iy1 b); cbn [andb]; lia.
+Qed.
+
+Lemma xs_of_in bs x : In x (xs_of bs) <-> exists b, In b bs /\ (x = ix0 b \/ x = ix1 b).
+Proof.
+  unfold xs_of. rewrite sset_in, in_flat_map. split; intros [b [Hb H]]; exists b; (split; [assumption|]).
+  - cbn [In] in H. intuition.
+  - cbn [In]. intuition.
+Qed.
+
+Lemma ys_of_in bs y : In y (ys_of bs) <-> exists b, In b bs /\ (y = iy0 b \/ y = iy1 b).
+Proof.
+  unfold ys_of. rewrite sset_in, in_flat_map. split; intros [b [Hb H]]; exists b; (split; [assumption|]).
+  - cbn [In] in H. intuition.
+  - cbn [In]. intuition.
+Qed.
+
+Lemma cells_sum_box_area bs b : In b bs -> ibox_ok b ->
+  cells_sum (xs_of bs) (ys_of bs) (cell_in b) = ibox_area b.
+Proof.
+  intros Hb [Ox Oy]. rewrite cells_sum_box. unfold ibox_area.
+  rewrite !len1_exact; try lia; try apply sset_sorted.
+  - apply ys_of_in. exists b. auto.
+  - apply ys_of_in. exists b. auto.
+  - apply xs_of_in. exists b. auto.
+  - apply xs_of_in. exists b. auto.
+Qed.
+
+(* ------------------------------------------------------------------------------------------ *)
+(* the laws *)
+
+Lemma own_plus_covered b others : ibox_ok b ->
+  own_area_grid b others + covered_area_grid b others = ibox_area b.
+Proof.
+  intros Ok. unfold own_area_grid, covered_area_grid.
+  rewrite <- (cells_sum_box_area (b :: others) b) by (try assumption; now left).
+  rewrite (cells_sum_split _ _ (cell_in b) (covered others)). lia.
+Qed.
+
+Lemma own_area_bounds b others : ibox_ok b -> 0 <= own_area_grid b others <= ibox_area b.
+Proof.
+  intros Ok. pose proof (own_plus_covered b others Ok).
+  assert (0 <= own_area_grid b others) by (apply cells_sum_nonneg; apply sset_sorted).
+  assert (0 <= covered_area_grid b others) by (apply cells_sum_nonneg; apply sset_sorted).
+  lia.
+Qed.
+
+Lemma ibox_area_pos b : ibox_ok b -> 0 < ibox_area b.
+Proof. intros [? ?]. unfold ibox_area. nia. Qed.
+
+Open Scope Q_scope.
+
+Lemma share_in_unit_interval_lemma b others : ibox_ok b -> 0 <= own_share_grid b others <= 1.
+Proof.
+  intros Ok. pose proof (own_area_bounds b others Ok) as [L U]. pose proof (ibox_area_pos b Ok) as P.
+  unfold own_share_grid, Qle. cbn [Qnum Qden]. rewrite Z2Pos.id by assumption. split; lia.
+Qed.
+
+Lemma share_is_uncovered_measure_lemma b others : ibox_ok b ->
+  own_share_grid b others == 1 - Qmake (covered_area_grid b others) (Z.to_pos (ibox_area b)).
+Proof.
+  intros Ok. pose proof (own_plus_covered b others Ok) as E. pose proof (ibox_area_pos b Ok) as P.
+  unfold own_share_grid, Qeq, Qminus, Qplus, Qopp. cbn [Qnum Qden]. rewrite !Pos2Z.inj_mul, !Z2Pos.id by assumption.
+  nia.
+Qed.
+
+Close Scope Q_scope.
+
+(* interiors of two boxes do not meet *)
+Definition idisjoint (b o : ibox) : Prop :=
+  ix1 b <= ix0 o \/ ix1 o <= ix0 b \/ iy1 b <= iy0 o \/ iy1 o <= iy0 b.
+
+Lemma covered_area_disjoint b others :
+  (forall o, In o others -> idisjoint b o) -> covered_area_grid b others = 0.
+Proof.
+  intros D. unfold covered_area_grid. apply cells_sum_zero. intros cx cy Hx Hy.
+  destruct (adj_facts _ (sset_sorted _) cx Hx) as [Lx _]. destruct (adj_facts _ (sset_sorted _) cy Hy) as [Ly _].
+  destruct (cell_in b cx cy) eqn:Cb; [|reflexivity]. cbn [andb]. unfold covered.
+  destruct (existsb (fun o => cell_in o cx cy) others) eqn:E; [|reflexivity]. exfalso.
+  apply existsb_exists in E. destruct E as [o [Ho Co]]. specialize (D o Ho).
+  unfold cell_in in Cb, Co. rewrite !andb_true_iff, !Z.leb_le in Cb, Co. unfold idisjoint in D. lia.
+Qed.
+
+Open Scope Q_scope.
+Lemma share_one_if_disjoint_lemma b others : ibox_ok b ->
+  (forall o, In o others -> idisjoint b o) -> own_share_grid b others == 1.
+Proof.
+  intros Ok D. pose proof (own_plus_covered b others Ok) as E. rewrite (covered_area_disjoint b others D) in E.
+  pose proof (ibox_area_pos b Ok) as P.
+  unfold own_share_grid, Qeq. cbn [Qnum Qden]. rewrite Z2Pos.id by assumption. lia.
+Qed.
+Close Scope Q_scope.
+
+(* every unit cell of b lies in some other box: b is covered by the union of the others *)
+Definition icovered (b : ibox) (others : list ibox) : Prop :=
+  forall i j, ix0 b <= i < ix1 b -> iy0 b <= j < iy1 b ->
+    exists o, In o others /\ ix0 o <= i < ix1 o /\ iy0 o <= j < iy1 o.
+
+Lemma own_area_covered b others : icovered b others -> own_area_grid b others = 0.
+Proof.
+  intros C. unfold own_area_grid. apply cells_sum_zero. intros cx cy Hx Hy.
+  destruct (adj_facts _ (sset_sorted _) cx Hx) as (Lx & _ & _ & Gx).
+  destruct (adj_facts _ (sset_sorted _) cy Hy) as (Ly & _ & _ & Gy).
+  destruct (cell_in b cx cy) eqn:Cb; [|reflexivity]. cbn [andb]. apply negb_false_iff.
+  unfold cell_in in Cb. rewrite !andb_true_iff, !Z.leb_le in Cb.
+  destruct (C (fst cx) (fst cy)) as [o [Ho [Ox Oy]]]; [lia | lia |].
+  unfold covered. apply existsb_exists. exists o. split; [assumption|].
+  unfold cell_in. rewrite !andb_true_iff, !Z.leb_le.
+  assert (X1 : In (ix1 o) (xs_of (b :: others))) by (apply xs_of_in; exists o; split; [now right | now right]).
+  assert (Y1 : In (iy1 o) (ys_of (b :: others))) by (apply ys_of_in; exists o; split; [now right | now right]).
+  destruct (Gx _ X1); destruct (Gy _ Y1); lia.
+Qed.
+
+Open Scope Q_scope.
+Lemma share_zero_if_covered_lemma b others : icovered b others -> own_share_grid b others == 0.
+Proof.
+  intros C. unfold own_share_grid. rewrite (own_area_covered b others C). reflexivity.
+Qed.
+Close Scope Q_scope.
+
+(* the order of the other boxes does not matter *)
+Lemma covered_perm others others' cx cy : Permutation others others' -> covered others cx cy = covered others' cx cy.
+Proof.
+  intros P. unfold covered.
+  destruct (existsb (fun o => cell_in o cx cy) others) eqn:A, (existsb (fun o => cell_in o cx cy) others') eqn:B; try reflexivity.
+  - apply existsb_exists in A. destruct A as [o [Ho Co]].
+    assert (existsb (fun o => cell_in o cx cy) others' = true)
+      by (apply existsb_exists; exists o; split; [eapply Permutation_in; eassumption | assumption]). congruence.
+  - apply existsb_exists in B. destruct B as [o [Ho Co]].
+    assert (existsb (fun o => cell_in o cx cy) others = true)
+      by (apply existsb_exists; exists o; split; [eapply Permutation_in; [apply Permutation_sym|]; eassumption | assumption]).
+    congruence.
+Qed.
+
+Lemma xs_of_perm b others others' : Permutation others others' -> xs_of (b :: others) = xs_of (b :: others').
+Proof.
+  intros P. unfold xs_of. apply sset_perm. intros x. rewrite !in_flat_map.
+  split; intros [o [Ho Hx]]; exists o; (split; [|assumption]); destruct Ho as [<-|Ho]; try (now left); right.
+  - eapply Permutation_in; eassumption.
+  - eapply Permutation_in; [apply Permutation_sym|]; eassumption.
+Qed.
+
+Lemma ys_of_perm b others others' : Permutation others others' -> ys_of (b :: others) = ys_of (b :: others').
+Proof.
+  intros P. unfold ys_of. apply sset_perm. intros x. rewrite !in_flat_map.
+  split; intros [o [Ho Hx]]; exists o; (split; [|assumption]); destruct Ho as [<-|Ho]; try (now left); right.
+  - eapply Permutation_in; eassumption.
+  - eapply Permutation_in; [apply Permutation_sym|]; eassumption.
+Qed.
+
+Lemma share_permutation_invariant_lemma b others others' :
+  Permutation others others' -> own_share_grid b others = own_share_grid b others'.
+Proof.
+  intros P. unfold own_share_grid, own_area_grid.
+  rewrite (xs_of_perm b _ _ P), (ys_of_perm b _ _ P). f_equal.
+  apply cells_sum_ext. intros cx cy _ _. now rewrite (covered_perm _ _ cx cy P).
+Qed.
+
+(* ------------------------------------------------------------------------------------------ *)
+(* the normalisation own / (area + EPS), clamped at 1, stays in the unit interval *)
+From Coq Require Import Lqa.
+From Similari Require Import Proofs.GeomProofs.
+From SimilariGen Require Import Consts.
+Open Scope Q_scope.
+
+Lemma share_normalise_range own area : 0 <= own -> 0 <= area ->
+  0 <= share_normalise Qops own area <= 1.
+Proof.
+  intros Ho Ha. unfold share_normalise.
+  assert (P0 : 0 < EPS) by reflexivity.
+  assert (E : div Qops own (add Qops area (of_Q Qops EPS)) == own / (area + EPS)).
+  { rewrite qdiv, qadd. reflexivity. }
+  revert P0 E. generalize EPS. intros eps P0 E.
+  assert (P : 0 < area + eps) by lra.
+  assert (N : 0 <= own / (area + eps)) by (apply Qle_shift_div_l; [exact P | lra]).
+  destruct (leb Qops (one Qops) (div Qops own (add Qops area (of_Q Qops eps)))) eqn:L.
+  - rewrite qone. split; lra.
+  - rewrite qleb in L. apply Qle_bool_false in L. rewrite qone in L. rewrite E in *. split; lra.
+Qed.
+
+(* a box that is not clipped by anything keeps its whole area *)
+Lemma uncovered_nil p : uncovered Qops p [] = shoelace Qops p.
+Proof. reflexivity. Qed.
